@@ -111,7 +111,7 @@ theorem elemHandler_isSome_mem {p : Property V} {key : QName} (h : (p.elemHandle
 structure KeysOK (ps : List (Property V)) : Prop where
   attrs : (ps.flatMap (·.attrKeys)).Nodup
   elems : (ps.flatMap (·.elemNames)).Nodup
-  args : (declArgs ps).Nodup
+  args : (allArgs ps).Nodup
   text : (ps.filterMap (·.textHandler?)).length ≤ 1
 
 theorem lookupAttr_of_mem {ps : List (Property V)} (hk : KeysOK ps) {p : Property V} (hp : p ∈ ps)
@@ -192,14 +192,11 @@ theorem Kw.set_other (kw : Kw V) {a b : String} (x : Val V) (h : b ≠ a) : (kw.
 
 /-! ### hypotheses on the fields -/
 
-/-- the hand-written handlers (parameters) must leave the arguments in `S` (which contains the declarative
-arguments) alone and succeed; their output must not be picked up by another handler -/
-def FrameOK (ps : List (Property V)) (S : String → Prop) (o : Obj V) (adm : Option String)
-    (impl : CustomImpl V) : Prop :=
-  (∀ x ∈ impl.childrenOut o,
-      (∃ a, adm = some a ∧ matchesName x.tag a = true) ∨ lookupElem ps x.tag = none) ∧
-  (∀ kv ∈ impl.attrsOut o, lookupAttr ps kv.1 = none) ∧
-  (∀ kw x, ∃ kw', impl.handle kw x = some kw' ∧ ∀ a, S a → kw' a = kw a)
+/-- a hand-written handler run on its own output, from a state in which its arguments are not yet set:
+succeeds, stores exactly `eff` under its own arguments and leaves every other argument alone -/
+def RunOK (o : Obj V) (impl : CustomImpl V) (run : Kw V → Option (Kw V)) : Prop :=
+  ∀ kw, (∀ a ∈ impl.own, kw a = none) →
+    ∃ kw', run kw = some kw' ∧ (∀ a ∈ impl.own, kw' a = impl.eff o a) ∧ (∀ b, b ∉ impl.own → kw' b = kw b)
 
 /-- a scalar field: the object holds a scalar that its codec round-trips (needed only when it is written, i.e.
 differs from the elided default); an optional field elides exactly the constructor default, a required field
@@ -207,7 +204,11 @@ never holds the elided value -/
 def ScalarOK (o cd : Obj V) (arg : String) (c : Codec V) (req : Bool) (dflt : V) : Prop :=
   ∃ v, o arg = .one v ∧ (v ≠ dflt → c.loads (c.dumps v) = some v) ∧ (if req then v ≠ dflt else cd arg = .one dflt)
 
-def FieldOK (ps : List (Property V)) (S : String → Prop) (o cd : Obj V) : Property V → Prop
+/-- hypotheses per property; `e` is the whole element written by `to_xml` (what a `GenericElement` handler is
+given).  For the hand-written handlers: their output is routed to their own handler (`CustomElement`) or to
+nobody (`GenericElement`, extra attributes), they behave as `RunOK` says, and a required argument is one
+they own and deliver. -/
+def FieldOK (ps : List (Property V)) (e : Xml) (o cd : Obj V) : Property V → Prop
   | .attr _ arg c req dflt => ScalarOK o cd arg c req dflt
   | .attrElement _ arg c req dflt po => (po = true ∧ req = false) ∨ (po = false ∧ ScalarOK o cd arg c req dflt)
   | .listElement _ arg c req po =>
@@ -216,8 +217,16 @@ def FieldOK (ps : List (Property V)) (S : String → Prop) (o cd : Obj V) : Prop
   | .handleText arg c => ∃ v, o arg = .one v ∧ c.loads (c.dumps v) = some v
   | .typeAttribute _ _ arg cD cL _ =>
     ∃ v, o arg = .one v ∧ cD.loads (cD.dumps v) = some v ∧ cL.loads (cL.dumps v) = some v
-  | .customElement adm _ _ impl => FrameOK ps S o (some adm) impl
-  | .genericElement _ _ impl => FrameOK ps S o none impl
+  | .customElement adm arg req impl =>
+    (∀ x ∈ impl.childrenOut o, matchesName x.tag adm = true) ∧
+    (∀ kv ∈ impl.attrsOut o, lookupAttr ps kv.1 = none) ∧
+    RunOK o impl (fun kw => (impl.childrenOut o).foldlM impl.handle kw) ∧
+    (req = true → ∀ a, arg = some a → a ∈ impl.own ∧ (impl.eff o a).isSome)
+  | .genericElement arg req impl =>
+    (∀ x ∈ impl.childrenOut o, lookupElem ps x.tag = none) ∧
+    (∀ kv ∈ impl.attrsOut o, lookupAttr ps kv.1 = none) ∧
+    RunOK o impl (fun kw => impl.handle kw e) ∧
+    (req = true → ∀ a, arg = some a → a ∈ impl.own ∧ (impl.eff o a).isSome)
 
 /-! ### what each pass contributes to an argument -/
 
@@ -238,56 +247,119 @@ def childEff (o : Obj V) (a : String) : Property V → Option (Val V)
     if po then none else
     if arg = a then (match o arg with | .many vs => if vs = [] then none else some (.many vs) | .one _ => none)
     else none
+  | .customElement _ _ _ impl => if a ∈ impl.own then impl.eff o a else none
   | _ => none
 
-theorem attrEff_declArg {o : Obj V} {a : String} {p : Property V} (h : (attrEff o a p).isSome) :
-    p.declArg? = some a := by
-  cases p <;> simp only [attrEff, Property.declArg?] at h ⊢ <;> try (cases h)
+def textEff (o : Obj V) (a : String) : Property V → Option (Val V)
+  | .handleText arg _ => if arg = a then (match o arg with | .one v => some (.one v) | .many _ => none) else none
+  | _ => none
+
+def genEff (o : Obj V) (a : String) : Property V → Option (Val V)
+  | .genericElement _ _ impl => if a ∈ impl.own then impl.eff o a else none
+  | _ => none
+
+theorem attrEff_own {o : Obj V} {a : String} {p : Property V} (h : (attrEff o a p).isSome) : a ∈ p.ownArgs := by
+  cases p <;> simp only [attrEff, Property.ownArgs] at h ⊢ <;> try (cases h)
   all_goals
     split at h
     · simp [*]
     · cases h
 
-theorem childEff_declArg {o : Obj V} {a : String} {p : Property V} (h : (childEff o a p).isSome) :
-    p.declArg? = some a := by
-  cases p <;> simp only [childEff, Property.declArg?] at h ⊢ <;> try (cases h)
-  all_goals
-    split at h
+theorem childEff_own {o : Obj V} {a : String} {p : Property V} (h : (childEff o a p).isSome) : a ∈ p.ownArgs := by
+  cases p <;> simp only [childEff, Property.ownArgs] at h ⊢ <;> try (cases h)
+  · split at h
     · cases h
     · split at h
       · simp [*]
       · cases h
+  · split at h
+    · cases h
+    · split at h
+      · simp [*]
+      · cases h
+  · split at h
+    · assumption
+    · cases h
+
+theorem textEff_own {o : Obj V} {a : String} {p : Property V} (h : (textEff o a p).isSome) : a ∈ p.ownArgs := by
+  cases p <;> simp only [textEff, Property.ownArgs] at h ⊢ <;> try (cases h)
+  split at h
+  · simp [*]
+  · cases h
+
+theorem genEff_own {o : Obj V} {a : String} {p : Property V} (h : (genEff o a p).isSome) : a ∈ p.ownArgs := by
+  cases p <;> simp only [genEff, Property.ownArgs] at h ⊢ <;> try (cases h)
+  split at h
+  · assumption
+  · cases h
 
 omit [DecidableEq V] in
-theorem declArgs_cons (p : Property V) (l : List (Property V)) :
-    declArgs (p :: l) = (match p.declArg? with | some a => a :: declArgs l | none => declArgs l) := by
-  unfold declArgs
-  rw [List.filterMap_cons]
-  cases p.declArg? <;> rfl
+theorem allArgs_tail_nodup {p : Property V} {l : List (Property V)} (h : (allArgs (p :: l)).Nodup) :
+    (allArgs l).Nodup := by
+  unfold allArgs at h ⊢
+  rw [List.flatMap_cons, List.nodup_append] at h
+  exact h.2.1
 
 omit [DecidableEq V] in
-theorem declArgs_tail_nodup {p : Property V} {l : List (Property V)} (h : (declArgs (p :: l)).Nodup) :
-    (declArgs l).Nodup := by
-  rw [declArgs_cons] at h
-  cases hp : p.declArg? with
-  | none => rw [hp] at h; exact h
-  | some a => rw [hp] at h; exact (List.nodup_cons.mp h).2
-
-omit [DecidableEq V] in
-/-- the head's argument is not an argument of the tail -/
-theorem declArg_head_notin {p : Property V} {l : List (Property V)} {a : String}
-    (h : (declArgs (p :: l)).Nodup) (hp : p.declArg? = some a) :
-    ∀ q ∈ l, q.declArg? ≠ some a := by
+/-- the head's arguments are not arguments of the tail -/
+theorem own_head_notin {p : Property V} {l : List (Property V)} {a : String}
+    (h : (allArgs (p :: l)).Nodup) (hp : a ∈ p.ownArgs) : ∀ q ∈ l, a ∉ q.ownArgs := by
   intro q hq hqa
-  rw [declArgs_cons, hp] at h
-  exact (List.nodup_cons.mp h).1 (List.mem_filterMap.mpr ⟨q, hq, hqa⟩)
+  unfold allArgs at h
+  rw [List.flatMap_cons, List.nodup_append] at h
+  exact h.2.2 a hp a (List.mem_flatMap.mpr ⟨q, hq, hqa⟩) rfl
+
+omit [DecidableEq V] in
+theorem mem_allArgs {ps : List (Property V)} {p : Property V} {a : String} (hp : p ∈ ps)
+    (ha : a ∈ p.ownArgs) : a ∈ allArgs ps :=
+  List.mem_flatMap.mpr ⟨p, hp, ha⟩
+
+omit [DecidableEq V] in
+theorem declArg_own {p : Property V} {a : String} (h : p.declArg? = some a) : a ∈ p.ownArgs := by
+  cases p <;> simp only [Property.declArg?, Property.ownArgs] at h ⊢
+  · simp_all
+  · split at h <;> simp_all
+  · split at h <;> simp_all
+  · simp_all
+  · simp_all
+  · cases h
+  · cases h
+
+/-- a pass over a tail `l` of the property list in which the head either does nothing or stores values
+under (some of) its own arguments: the common induction step -/
+theorem pass_step {α} (run : List α → Kw V → Option (Kw V)) (eff : String → Property V → Option (Val V))
+    (p : Property V) (l : List (Property V)) (kw kw2 : Kw V) (out : Property V → List α)
+    (happ : ∀ xs ys kw, run (xs ++ ys) kw = (run xs kw).bind (run ys))
+    (heffown : ∀ a q, (eff a q).isSome → a ∈ q.ownArgs)
+    (hnd : (allArgs (p :: l)).Nodup)
+    (hrun : run (out p) kw = some kw2)
+    (hset : ∀ a ∈ p.ownArgs, kw2 a = (eff a p).or (kw a))
+    (hoth : ∀ b, b ∉ p.ownArgs → kw2 b = kw b)
+    (ih : ∃ kw', run (l.flatMap out) kw2 = some kw' ∧ ∀ a, kw' a = (l.findSome? (eff a)).or (kw2 a)) :
+    ∃ kw', run ((p :: l).flatMap out) kw = some kw' ∧ ∀ a, kw' a = ((p :: l).findSome? (eff a)).or (kw a) := by
+  obtain ⟨kw', h3, h4⟩ := ih
+  refine ⟨kw', by rw [List.flatMap_cons, happ, hrun]; simpa using h3, fun a => ?_⟩
+  rw [List.findSome?_cons, h4 a]
+  by_cases ha : a ∈ p.ownArgs
+  · have hnot := own_head_notin hnd ha
+    have : l.findSome? (eff a) = none :=
+      findSome?_none (fun q hq => by
+        cases hq' : eff a q with
+        | none => rfl
+        | some y => exact absurd (heffown a q (by rw [hq']; rfl)) (hnot q hq))
+    rw [this, hset a ha]
+    cases eff a p <;> simp
+  · have : eff a p = none := by
+      cases hq' : eff a p with
+      | none => rfl
+      | some y => exact absurd (heffown a p (by rw [hq']; rfl)) ha
+    rw [this, hoth a ha]
 
 /-! ### the attribute pass -/
 
-theorem attrs_loop (ps : List (Property V)) (hk : KeysOK ps) (S : String → Prop) (o cd : Obj V)
-    (hF : ∀ p ∈ ps, FieldOK ps S o cd p) :
-    ∀ (l : List (Property V)), (∀ p ∈ l, p ∈ ps) → (declArgs l).Nodup → ∀ kw : Kw V,
-      (∀ p ∈ l, ∀ a, p.declArg? = some a → kw a = none) →
+theorem attrs_loop (ps : List (Property V)) (hk : KeysOK ps) (e : Xml) (o cd : Obj V) :
+    ∀ (l : List (Property V)), (∀ p ∈ l, p ∈ ps ∧ FieldOK ps e o cd p) → (allArgs l).Nodup → ∀ kw : Kw V,
+      (∀ p ∈ l, ∀ a ∈ p.ownArgs, kw a = none) →
       ∃ kw', parseAttrs ps (l.flatMap (·.attrsOut o)) kw = some kw' ∧
         ∀ a, kw' a = (l.findSome? (attrEff o a)).or (kw a) := by
   intro l
@@ -295,58 +367,45 @@ theorem attrs_loop (ps : List (Property V)) (hk : KeysOK ps) (S : String → Pro
   | nil => intro _ _ kw _; exact ⟨kw, rfl, fun a => by simp⟩
   | cons p l ih =>
     intro hl hnd kw hinv
-    have hp : p ∈ ps := hl p (by simp)
-    have hl' : ∀ q ∈ l, q ∈ ps := fun q hq => hl q (by simp [hq])
-    have hnd' := declArgs_tail_nodup hnd
-    have hinv' : ∀ q ∈ l, ∀ a, q.declArg? = some a → kw a = none :=
-      fun q hq a ha => hinv q (by simp [hq]) a ha
-    rw [List.flatMap_cons, parseAttrs_append]
-    -- a property that contributes nothing to this pass
-    have skip : p.attrsOut o = [] → (∀ a, attrEff o a p = none) →
-        ∃ kw', (parseAttrs ps (p.attrsOut o) kw).bind (parseAttrs ps (l.flatMap (·.attrsOut o))) = some kw' ∧
+    have hp : p ∈ ps := (hl p (by simp)).1
+    have hfield := (hl p (by simp)).2
+    have hl' : ∀ q ∈ l, q ∈ ps ∧ FieldOK ps e o cd q := fun q hq => hl q (by simp [hq])
+    have hnd' := allArgs_tail_nodup hnd
+    -- the general step
+    have step : ∀ kw2, parseAttrs ps (p.attrsOut o) kw = some kw2 →
+        (∀ a ∈ p.ownArgs, kw2 a = (attrEff o a p).or (kw a)) → (∀ b, b ∉ p.ownArgs → kw2 b = kw b) →
+        ∃ kw', parseAttrs ps ((p :: l).flatMap (·.attrsOut o)) kw = some kw' ∧
+          ∀ a, kw' a = ((p :: l).findSome? (attrEff o a)).or (kw a) := by
+      intro kw2 hrun hset hoth
+      refine pass_step (parseAttrs ps) (attrEff o) p l kw kw2 (·.attrsOut o) (parseAttrs_append ps)
+        (fun a q h => attrEff_own h) hnd hrun hset hoth ?_
+      apply ih hl' hnd' kw2
+      intro q hq a ha
+      have : a ∉ p.ownArgs := fun h => own_head_notin hnd h q hq ha
+      rw [hoth a this]; exact hinv q (by simp [hq]) a ha
+    have idle : parseAttrs ps (p.attrsOut o) kw = some kw → (∀ a, attrEff o a p = none) →
+        ∃ kw', parseAttrs ps ((p :: l).flatMap (·.attrsOut o)) kw = some kw' ∧
           ∀ a, kw' a = ((p :: l).findSome? (attrEff o a)).or (kw a) := by
       intro h1 h2
-      obtain ⟨kw', h3, h4⟩ := ih hl' hnd' kw hinv'
-      refine ⟨kw', by rw [h1]; simpa [parseAttrs] using h3, fun a => ?_⟩
-      rw [List.findSome?_cons, h2 a]; exact h4 a
-    -- a property whose output is not handled by the attribute dictionary
-    have unhandled : (∀ kv ∈ p.attrsOut o, lookupAttr ps kv.1 = none) → (∀ a, attrEff o a p = none) →
-        ∃ kw', (parseAttrs ps (p.attrsOut o) kw).bind (parseAttrs ps (l.flatMap (·.attrsOut o))) = some kw' ∧
-          ∀ a, kw' a = ((p :: l).findSome? (attrEff o a)).or (kw a) := by
-      intro h1 h2
-      obtain ⟨kw', h3, h4⟩ := ih hl' hnd' kw hinv'
-      refine ⟨kw', by rw [parseAttrs_unhandled ps _ kw h1]; simpa using h3, fun a => ?_⟩
-      rw [List.findSome?_cons, h2 a]; exact h4 a
-    -- a property that stores `.one v` under `arg`
-    have stores : ∀ (arg : String) (v : V), p.declArg? = some arg → o arg = .one v →
+      exact step kw h1 (fun a _ => by simp [h2 a]) (fun _ _ => rfl)
+    have stores : ∀ (arg : String) (v : V), p.ownArgs = [arg] → o arg = .one v →
         parseAttrs ps (p.attrsOut o) kw = some (kw.set arg (.one v)) →
         (∀ a, attrEff o a p = if arg = a then some (.one v) else none) →
-        ∃ kw', (parseAttrs ps (p.attrsOut o) kw).bind (parseAttrs ps (l.flatMap (·.attrsOut o))) = some kw' ∧
+        ∃ kw', parseAttrs ps ((p :: l).flatMap (·.attrsOut o)) kw = some kw' ∧
           ∀ a, kw' a = ((p :: l).findSome? (attrEff o a)).or (kw a) := by
-      intro arg v hda hov hrun heff
-      have hnot := declArg_head_notin hnd hda
-      obtain ⟨kw', h3, h4⟩ := ih hl' hnd' (kw.set arg (.one v)) (by
-        intro q hq a ha
-        have : a ≠ arg := by rintro rfl; exact hnot q hq ha
-        rw [Kw.set_other _ _ this]; exact hinv' q hq a ha)
-      refine ⟨kw', by rw [hrun]; simpa using h3, fun a => ?_⟩
-      rw [List.findSome?_cons, heff a, h4 a]
-      by_cases haa : arg = a
-      · subst haa
-        have : l.findSome? (attrEff o arg) = none :=
-          findSome?_none (fun q hq => by
-            cases hq' : attrEff o arg q with
-            | none => rfl
-            | some y => exact absurd (attrEff_declArg (o := o) (a := arg) (p := q) (by rw [hq']; rfl)) (hnot q hq))
-        simp [this, Kw.set_same]
-      · have : a ≠ arg := fun h => haa h.symm
-        simp [haa, Kw.set_other _ _ this]
-    have hfield := hF p hp
+      intro arg v hown hov hrun heff
+      refine step _ hrun ?_ ?_
+      · intro a ha
+        rw [hown] at ha; simp only [List.mem_singleton] at ha; subst ha
+        simp [heff, Kw.set_same]
+      · intro b hb
+        rw [hown] at hb; simp only [List.mem_singleton] at hb
+        exact Kw.set_other _ _ hb
     cases p with
     | attr adm arg c req dflt =>
       obtain ⟨v, hov, hrt, _⟩ := hfield
       by_cases hvd : v = dflt
-      · exact skip (by simp [Property.attrsOut, hov, hvd]) (fun a => by simp [attrEff, hov, hvd])
+      · exact idle (by simp [Property.attrsOut, hov, hvd, parseAttrs]) (fun a => by simp [attrEff, hov, hvd])
       · refine stores arg v rfl hov ?_ (fun a => by simp [attrEff, hov, hvd])
         have hlk := lookupAttr_of_mem hk hp (key := adm)
           (h := fun kw v => (c.loads v).map fun x => kw.set arg (.one x)) (by simp [Property.attrHandler?])
@@ -357,8 +416,6 @@ theorem attrs_loop (ps : List (Property V)) (hk : KeysOK ps) (S : String → Pro
       have hdl : d ≠ l' := by
         have := hk.attrs
         intro hdl; subst hdl
-        have hmem : [d, d] ⊆ ps.flatMap (·.attrKeys) := by
-          intro k hk'; exact List.mem_flatMap.mpr ⟨_, hp, by simpa [Property.attrKeys] using hk'⟩
         have hsub : List.Sublist [d, d] (ps.flatMap (·.attrKeys)) := by
           obtain ⟨s, t, hst⟩ := List.append_of_mem hp
           rw [hst, List.flatMap_append, List.flatMap_cons]
@@ -368,49 +425,40 @@ theorem attrs_loop (ps : List (Property V)) (hk : KeysOK ps) (S : String → Pro
       have hlkL := lookupAttr_of_mem hk hp (key := l') (h := typeHandler arg cL) (by simp [Property.attrHandler?])
       have hlkD := lookupAttr_of_mem hk hp (key := d) (h := typeHandler arg cD)
         (by simp [Property.attrHandler?, hdl])
-      have hnone : kw arg = none := hinv (Property.typeAttribute d l' arg cD cL req) (by simp) arg rfl
+      have hnone : kw arg = none := hinv (Property.typeAttribute d l' arg cD cL req) (by simp) arg (by simp [Property.ownArgs])
       have h1 : typeHandler arg cL kw (cL.dumps v) = some (kw.set arg (.one v)) := by
         simp [typeHandler, hrtL, hnone]
       have h2 : typeHandler arg cD (kw.set arg (.one v)) (cD.dumps v) = some (kw.set arg (.one v)) := by
         simp only [typeHandler, hrtD, Kw.set_same, if_true]
         congr 1; funext b; by_cases hb : b = arg <;> simp [Kw.set, hb]
       simp [Property.attrsOut, hov, parseAttrs, hlkL, hlkD, h1, h2]
-    | attrElement adm arg c req dflt po => exact skip rfl (fun a => rfl)
-    | listElement adm arg c req po => exact skip rfl (fun a => rfl)
-    | handleText arg c => exact skip rfl (fun a => rfl)
-    | customElement adm arg req impl => exact unhandled hfield.2.1 (fun a => rfl)
-    | genericElement arg req impl => exact unhandled hfield.2.1 (fun a => rfl)
+    | attrElement adm arg c req dflt po => exact idle rfl (fun a => rfl)
+    | listElement adm arg c req po => exact idle rfl (fun a => rfl)
+    | handleText arg c => exact idle rfl (fun a => rfl)
+    | customElement adm arg req impl =>
+      exact idle (parseAttrs_unhandled ps _ kw hfield.2.1) (fun a => rfl)
+    | genericElement arg req impl =>
+      exact idle (parseAttrs_unhandled ps _ kw hfield.2.1) (fun a => rfl)
 
 /-! ### the child-element pass -/
 
-omit [DecidableEq V] in
-theorem mem_declArgs {ps : List (Property V)} {p : Property V} {a : String} (hp : p ∈ ps)
-    (ha : p.declArg? = some a) : a ∈ declArgs ps :=
-  List.mem_filterMap.mpr ⟨p, hp, ha⟩
-
-/-- children written by a `CustomElement` are consumed by its own handler (or by nobody) and the
-declarative arguments survive -/
-theorem custom_children (ps : List (Property V)) (hk : KeysOK ps) (S : String → Prop) (o : Obj V)
+/-- children written by a `CustomElement` all go to its own handler -/
+theorem custom_children (ps : List (Property V)) (hk : KeysOK ps) (o : Obj V)
     (adm : String) (arg : Option String) (req : Bool) (impl : CustomImpl V)
-    (hp : Property.customElement adm arg req impl ∈ ps) (hfr : FrameOK ps S o (some adm) impl) :
-    ∀ xs : List Xml, (∀ x ∈ xs, x ∈ impl.childrenOut o) → ∀ kw : Kw V,
-      ∃ kw', parseChildren ps xs kw = some kw' ∧ ∀ a, S a → kw' a = kw a := by
+    (hp : Property.customElement adm arg req impl ∈ ps) :
+    ∀ xs : List Xml, (∀ x ∈ xs, matchesName x.tag adm = true) → ∀ kw : Kw V,
+      parseChildren ps xs kw = xs.foldlM impl.handle kw := by
   intro xs
   induction xs with
-  | nil => intro _ kw; exact ⟨kw, rfl, fun _ _ => rfl⟩
+  | nil => intro _ kw; rfl
   | cons x xs ih =>
     intro hx kw
-    have hxs : ∀ y ∈ xs, y ∈ impl.childrenOut o := fun y hy => hx y (by simp [hy])
-    rcases hfr.1 x (hx x (by simp)) with ⟨a, ha, hm⟩ | hnone
-    · injection ha with ha; subst ha
-      have hlk := lookupElem_of_mem hk hp (key := x.tag) (h := impl.handle)
-        (by simp [Property.elemHandler?, hm])
-      obtain ⟨kw2, h2, hf2⟩ := hfr.2.2 kw x
-      obtain ⟨kw', h3, hf3⟩ := ih hxs kw2
-      refine ⟨kw', by simp [parseChildren, hlk, h2, h3], fun a ha => ?_⟩
-      rw [hf3 a ha, hf2 a ha]
-    · obtain ⟨kw', h3, hf3⟩ := ih hxs kw
-      exact ⟨kw', by simp [parseChildren, hnone, h3], hf3⟩
+    have hlk := lookupElem_of_mem hk hp (key := x.tag) (h := impl.handle)
+      (by simp [Property.elemHandler?, hx x (by simp)])
+    simp only [parseChildren, hlk, List.foldlM_cons]
+    cases impl.handle kw x with
+    | none => rfl
+    | some kw2 => simpa using ih (fun y hy => hx y (by simp [hy])) kw2
 
 /-- the elements written by a `ListElement` are appended one by one -/
 theorem list_loop (ps : List (Property V)) (hk : KeysOK ps)
@@ -437,91 +485,78 @@ theorem list_loop (ps : List (Property V)) (hk : KeysOK ps)
     simp only [hh, Option.bind_some]
     exact h1
 
-/-- the argument of a property that acts in the child-element pass -/
-def Property.childArg? : Property V → Option String
-  | .attrElement _ arg _ _ _ po => if po then none else some arg
-  | .listElement _ arg _ _ po => if po then none else some arg
-  | _ => none
+/-- the arguments a property may write in the child-element pass -/
+def Property.childOwn : Property V → List String
+  | .attrElement _ arg _ _ _ po => if po then [] else [arg]
+  | .listElement _ arg _ _ po => if po then [] else [arg]
+  | .customElement _ _ _ impl => impl.own
+  | _ => []
 
 omit [DecidableEq V] in
-theorem childArg_declArg {p : Property V} {a : String} (h : p.childArg? = some a) : p.declArg? = some a := by
-  cases p <;> simp only [Property.childArg?, Property.declArg?] at h ⊢ <;> first | exact h | cases h
+theorem childOwn_own {p : Property V} {a : String} (h : a ∈ p.childOwn) : a ∈ p.ownArgs := by
+  cases p <;> simp only [Property.childOwn, Property.ownArgs] at h ⊢ <;> first | exact h | cases h
 
-theorem children_loop (ps : List (Property V)) (hk : KeysOK ps) (S : String → Prop)
-    (hS : ∀ a ∈ declArgs ps, S a) (o cd : Obj V)
-    (hF : ∀ p ∈ ps, FieldOK ps S o cd p) :
-    ∀ (l : List (Property V)), (∀ p ∈ l, p ∈ ps) → (declArgs l).Nodup → ∀ kw : Kw V,
-      (∀ p ∈ l, ∀ a, p.childArg? = some a → kw a = none) →
+theorem children_loop (ps : List (Property V)) (hk : KeysOK ps) (e : Xml) (o cd : Obj V) :
+    ∀ (l : List (Property V)), (∀ p ∈ l, p ∈ ps ∧ FieldOK ps e o cd p) → (allArgs l).Nodup → ∀ kw : Kw V,
+      (∀ p ∈ l, ∀ a ∈ p.childOwn, kw a = none) →
       ∃ kw', parseChildren ps (l.flatMap (·.childrenOut o)) kw = some kw' ∧
-        ∀ a, S a → kw' a = (l.findSome? (childEff o a)).or (kw a) := by
+        ∀ a, kw' a = (l.findSome? (childEff o a)).or (kw a) := by
   intro l
   induction l with
-  | nil => intro _ _ kw _; exact ⟨kw, rfl, fun a _ => by simp⟩
+  | nil => intro _ _ kw _; exact ⟨kw, rfl, fun a => by simp⟩
   | cons p l ih =>
     intro hl hnd kw hinv
-    have hp : p ∈ ps := hl p (by simp)
-    have hl' : ∀ q ∈ l, q ∈ ps := fun q hq => hl q (by simp [hq])
-    have hnd' := declArgs_tail_nodup hnd
-    have hinv' : ∀ q ∈ l, ∀ a, q.childArg? = some a → kw a = none :=
-      fun q hq a ha => hinv q (by simp [hq]) a ha
-    rw [List.flatMap_cons, parseChildren_append]
-    -- the head's children are processed without touching the declarative arguments
-    have framed : (∀ a, childEff o a p = none) →
-        (∃ kw2, parseChildren ps (p.childrenOut o) kw = some kw2 ∧ ∀ a, S a → kw2 a = kw a) →
-        ∃ kw', (parseChildren ps (p.childrenOut o) kw).bind (parseChildren ps (l.flatMap (·.childrenOut o))) = some kw' ∧
-          ∀ a, S a → kw' a = ((p :: l).findSome? (childEff o a)).or (kw a) := by
-      intro h2 ⟨kw2, hrun, hfr⟩
-      obtain ⟨kw', h3, h4⟩ := ih hl' hnd' kw2 (by
-        intro q hq a ha
-        rw [hfr a (hS a (mem_declArgs (hl' q hq) (childArg_declArg ha)))]; exact hinv' q hq a ha)
-      refine ⟨kw', by rw [hrun]; simpa using h3, fun a ha => ?_⟩
-      rw [List.findSome?_cons, h2 a, h4 a ha, hfr a ha]
-    have skip : p.childrenOut o = [] → (∀ a, childEff o a p = none) →
-        ∃ kw', (parseChildren ps (p.childrenOut o) kw).bind (parseChildren ps (l.flatMap (·.childrenOut o))) = some kw' ∧
-          ∀ a, S a → kw' a = ((p :: l).findSome? (childEff o a)).or (kw a) := by
+    have hp : p ∈ ps := (hl p (by simp)).1
+    have hfield := (hl p (by simp)).2
+    have hl' : ∀ q ∈ l, q ∈ ps ∧ FieldOK ps e o cd q := fun q hq => hl q (by simp [hq])
+    have hnd' := allArgs_tail_nodup hnd
+    have step : ∀ kw2, parseChildren ps (p.childrenOut o) kw = some kw2 →
+        (∀ a ∈ p.ownArgs, kw2 a = (childEff o a p).or (kw a)) → (∀ b, b ∉ p.ownArgs → kw2 b = kw b) →
+        ∃ kw', parseChildren ps ((p :: l).flatMap (·.childrenOut o)) kw = some kw' ∧
+          ∀ a, kw' a = ((p :: l).findSome? (childEff o a)).or (kw a) := by
+      intro kw2 hrun hset hoth
+      refine pass_step (parseChildren ps) (childEff o) p l kw kw2 (·.childrenOut o) (parseChildren_append ps)
+        (fun a q h => childEff_own h) hnd hrun hset hoth ?_
+      apply ih hl' hnd' kw2
+      intro q hq a ha
+      have : a ∉ p.ownArgs := fun h => own_head_notin hnd h q hq (childOwn_own ha)
+      rw [hoth a this]; exact hinv q (by simp [hq]) a ha
+    have idle : parseChildren ps (p.childrenOut o) kw = some kw → (∀ a, childEff o a p = none) →
+        ∃ kw', parseChildren ps ((p :: l).flatMap (·.childrenOut o)) kw = some kw' ∧
+          ∀ a, kw' a = ((p :: l).findSome? (childEff o a)).or (kw a) := by
       intro h1 h2
-      exact framed h2 ⟨kw, by rw [h1]; rfl, fun _ _ => rfl⟩
-    -- the head stores `x` under `arg`
-    have stores : ∀ (arg : String) (x : Val V), p.declArg? = some arg →
+      exact step kw h1 (fun a _ => by simp [h2 a]) (fun _ _ => rfl)
+    have stores : ∀ (arg : String) (x : Val V), p.ownArgs = [arg] →
         (∃ kw2, parseChildren ps (p.childrenOut o) kw = some kw2 ∧ kw2 arg = some x ∧ ∀ b, b ≠ arg → kw2 b = kw b) →
         (∀ a, childEff o a p = if arg = a then some x else none) →
-        ∃ kw', (parseChildren ps (p.childrenOut o) kw).bind (parseChildren ps (l.flatMap (·.childrenOut o))) = some kw' ∧
-          ∀ a, S a → kw' a = ((p :: l).findSome? (childEff o a)).or (kw a) := by
-      intro arg x hda ⟨kw2, hrun, hset, hoth⟩ heff
-      have hnot := declArg_head_notin hnd hda
-      obtain ⟨kw', h3, h4⟩ := ih hl' hnd' kw2 (by
-        intro q hq a ha
-        have : a ≠ arg := by rintro rfl; exact hnot q hq (childArg_declArg ha)
-        rw [hoth a this]; exact hinv' q hq a ha)
-      refine ⟨kw', by rw [hrun]; simpa using h3, fun a ha => ?_⟩
-      rw [List.findSome?_cons, heff a, h4 a ha]
-      by_cases haa : arg = a
-      · subst haa
-        have : l.findSome? (childEff o arg) = none :=
-          findSome?_none (fun q hq => by
-            cases hq' : childEff o arg q with
-            | none => rfl
-            | some y => exact absurd (childEff_declArg (o := o) (a := arg) (p := q) (by rw [hq']; rfl)) (hnot q hq))
-        simp [this, hset]
-      · have : a ≠ arg := fun h => haa h.symm
-        simp [haa, hoth a this]
-    have hfield := hF p hp
+        ∃ kw', parseChildren ps ((p :: l).flatMap (·.childrenOut o)) kw = some kw' ∧
+          ∀ a, kw' a = ((p :: l).findSome? (childEff o a)).or (kw a) := by
+      intro arg x hown ⟨kw2, hrun, hset, hoth⟩ heff
+      refine step kw2 hrun ?_ ?_
+      · intro a ha
+        rw [hown] at ha; simp only [List.mem_singleton] at ha; subst ha
+        simp [heff, hset]
+      · intro b hb
+        rw [hown] at hb; simp only [List.mem_singleton] at hb
+        exact hoth b hb
     cases p with
-    | attr adm arg c req dflt => exact skip rfl (fun a => rfl)
-    | typeAttribute d l' arg cD cL req => exact skip rfl (fun a => rfl)
-    | handleText arg c => exact skip rfl (fun a => rfl)
+    | attr adm arg c req dflt => exact idle rfl (fun a => rfl)
+    | typeAttribute d l' arg cD cL req => exact idle rfl (fun a => rfl)
+    | handleText arg c => exact idle rfl (fun a => rfl)
     | attrElement adm arg c req dflt po =>
       cases po with
-      | true => exact skip (by simp [Property.childrenOut]) (fun a => by simp [childEff])
+      | true => exact idle (by simp [Property.childrenOut, parseChildren]) (fun a => by simp [childEff])
       | false =>
         rcases hfield with h | ⟨_, v, hov, hrt, _⟩
         · cases h.1
         by_cases hvd : v = dflt
-        · exact skip (by simp [Property.childrenOut, hov, hvd]) (fun a => by simp [childEff, hov, hvd])
-        · refine stores arg (.one v) rfl ?_ (fun a => by simp [childEff, hov, hvd])
+        · exact idle (by simp [Property.childrenOut, hov, hvd, parseChildren])
+            (fun a => by simp [childEff, hov, hvd])
+        · refine stores arg (.one v) (by simp [Property.ownArgs]) ?_ (fun a => by simp [childEff, hov, hvd])
           have hlk := lookupElem_of_mem hk hp (key := outName adm) (h := attrElementHandler arg c)
             (by simp [Property.elemHandler?, matchesName_outName])
-          have hnone : kw arg = none := hinv (Property.attrElement adm arg c req dflt false) (by simp) arg rfl
+          have hnone : kw arg = none :=
+            hinv (Property.attrElement adm arg c req dflt false) (by simp) arg (by simp [Property.childOwn])
           refine ⟨kw.set arg (.one v), ?_, Kw.set_same _ _ _, fun b hb => Kw.set_other _ _ hb⟩
           have : (leafElem adm (c.dumps v)).tag = outName adm := rfl
           have hh : attrElementHandler arg c kw (leafElem adm (c.dumps v)) = some (kw.set arg (.one v)) := by
@@ -532,17 +567,18 @@ theorem children_loop (ps : List (Property V)) (hk : KeysOK ps) (S : String → 
           simp only [parseChildren, this, hlk, hh, Option.bind_some]
     | listElement adm arg c req po =>
       cases po with
-      | true => exact skip (by simp [Property.childrenOut]) (fun a => by simp [childEff])
+      | true => exact idle (by simp [Property.childrenOut, parseChildren]) (fun a => by simp [childEff])
       | false =>
         rcases hfield with h | ⟨_, vs, hov, hrt, _⟩
         · cases h.1
         cases vs with
-        | nil => exact skip (by simp [Property.childrenOut, hov]) (fun a => by simp [childEff, hov])
+        | nil => exact idle (by simp [Property.childrenOut, hov, parseChildren]) (fun a => by simp [childEff, hov])
         | cons v vs =>
-          refine stores arg (.many (v :: vs)) rfl ?_ (fun a => by simp [childEff, hov])
+          refine stores arg (.many (v :: vs)) (by simp [Property.ownArgs]) ?_ (fun a => by simp [childEff, hov])
           have hlk := lookupElem_of_mem hk hp (key := outName adm) (h := listElementHandler arg c)
             (by simp [Property.elemHandler?, matchesName_outName])
-          have hnone : kw arg = none := hinv (Property.listElement adm arg c req false) (by simp) arg rfl
+          have hnone : kw arg = none :=
+            hinv (Property.listElement adm arg c req false) (by simp) arg (by simp [Property.childOwn])
           obtain ⟨kw2, h1, h2, h3⟩ := list_loop ps hk adm arg c req false hp vs [v] (kw.set arg (.many [v]))
             (fun w hw => hrt w (by simp [hw])) (Kw.set_same _ _ _)
           refine ⟨kw2, ?_, by simpa using h2, fun b hb => by rw [h3 b hb, Kw.set_other _ _ hb]⟩
@@ -553,28 +589,23 @@ theorem children_loop (ps : List (Property V)) (hk : KeysOK ps) (S : String → 
             Bool.false_eq_true, if_false]
           exact h1
     | customElement adm arg req impl =>
-      exact framed (fun a => rfl) (custom_children ps hk S o adm arg req impl hp hfield _ (fun x hx => hx) kw)
+      obtain ⟨htags, _, hrun, _⟩ := hfield
+      obtain ⟨kw2, h2, hset, hoth⟩ := hrun kw
+        (fun a ha => hinv (Property.customElement adm arg req impl) (by simp) a (by simpa [Property.childOwn] using ha))
+      refine step kw2 ?_ ?_ ?_
+      · show parseChildren ps (impl.childrenOut o) kw = some kw2
+        rw [custom_children ps hk o adm arg req impl hp _ htags kw]; exact h2
+      · intro a ha
+        have ha' : a ∈ impl.own := by simpa [Property.ownArgs] using ha
+        have hnone : kw a = none :=
+          hinv (Property.customElement adm arg req impl) (by simp) a (by simpa [Property.childOwn] using ha')
+        simp [childEff, ha', hset a ha', hnone]
+      · intro b hb
+        exact hoth b (by simpa [Property.ownArgs] using hb)
     | genericElement arg req impl =>
-      refine framed (fun a => rfl) ⟨kw, parseChildren_unhandled ps _ kw ?_, fun _ _ => rfl⟩
-      intro x hx
-      rcases hfield.1 x hx with ⟨a, ha, _⟩ | h
-      · cases ha
-      · exact h
+      exact idle (parseChildren_unhandled ps _ kw hfield.1) (fun a => rfl)
 
 /-! ### text, generic handlers, assembly -/
-
-theorem generics_loop (S : String → Prop) (e : Xml) :
-    ∀ (gs : List (CustomImpl V)),
-      (∀ g ∈ gs, ∀ kw x, ∃ kw', g.handle kw x = some kw' ∧ ∀ a, S a → kw' a = kw a) → ∀ kw : Kw V,
-      ∃ kw', parseGenerics e gs kw = some kw' ∧ ∀ a, S a → kw' a = kw a := by
-  intro gs
-  induction gs with
-  | nil => intro _ kw; exact ⟨kw, rfl, fun _ _ => rfl⟩
-  | cons g gs ih =>
-    intro h kw
-    obtain ⟨kw2, h2, hf2⟩ := h g (by simp) kw e
-    obtain ⟨kw', h3, hf3⟩ := ih (fun g' hg' => h g' (by simp [hg'])) kw2
-    exact ⟨kw', by simp [parseGenerics, h2, h3], fun a ha => by rw [hf3 a ha, hf2 a ha]⟩
 
 theorem findSome?_owner {α β} {f : α → Option β} {p : α} {l : List α} (hp : p ∈ l)
     (hu : ∀ q ∈ l, (f q).isSome → q = p) : l.findSome? f = f p := by
@@ -593,60 +624,106 @@ theorem length_le_one_eq {α} {l : List α} (h : l.length ≤ 1) {x y : α} (hx 
   | [z], _ => simp at hx hy; rw [hx, hy]
   | _ :: _ :: _, h => simp at h
 
-/-- the hypotheses of the round-trip theorem -/
-structure WF (ps : List (Property V)) (S : String → Prop) (o cd : Obj V) : Prop where
+/-- the generic handlers, in property order -/
+theorem generics_loop (ps : List (Property V)) (e : Xml) (o cd : Obj V) :
+    ∀ (l : List (Property V)), (∀ p ∈ l, p ∈ ps ∧ FieldOK ps e o cd p) → (allArgs l).Nodup → ∀ kw : Kw V,
+      (∀ p ∈ l, p.generic?.isSome → ∀ a ∈ p.ownArgs, kw a = none) →
+      ∃ kw', parseGenerics e (l.filterMap (·.generic?)) kw = some kw' ∧
+        ∀ a, kw' a = (l.findSome? (genEff o a)).or (kw a) := by
+  intro l
+  induction l with
+  | nil => intro _ _ kw _; exact ⟨kw, rfl, fun a => by simp⟩
+  | cons p l ih =>
+    intro hl hnd kw hinv
+    have hfield := (hl p (by simp)).2
+    have hl' : ∀ q ∈ l, q ∈ ps ∧ FieldOK ps e o cd q := fun q hq => hl q (by simp [hq])
+    have hnd' := allArgs_tail_nodup hnd
+    have idle : p.generic? = none → (∀ a, genEff o a p = none) →
+        ∃ kw', parseGenerics e ((p :: l).filterMap (·.generic?)) kw = some kw' ∧
+          ∀ a, kw' a = ((p :: l).findSome? (genEff o a)).or (kw a) := by
+      intro h1 h2
+      obtain ⟨kw', h3, h4⟩ := ih hl' hnd' kw (fun q hq => hinv q (by simp [hq]))
+      refine ⟨kw', by rw [List.filterMap_cons, h1]; exact h3, fun a => ?_⟩
+      rw [List.findSome?_cons, h2 a]; exact h4 a
+    cases p with
+    | genericElement arg req impl =>
+      obtain ⟨_, _, hrun, _⟩ := hfield
+      have hnone : ∀ a ∈ impl.own, kw a = none := fun a ha =>
+        hinv (Property.genericElement arg req impl) (by simp) (by simp [Property.generic?]) a
+          (by simpa [Property.ownArgs] using ha)
+      obtain ⟨kw2, h2, hset, hoth⟩ := hrun kw hnone
+      obtain ⟨kw', h3, h4⟩ := ih hl' hnd' kw2 (by
+        intro q hq hc a ha
+        have : a ∉ impl.own := fun h =>
+          own_head_notin hnd (p := Property.genericElement arg req impl) (by simpa [Property.ownArgs] using h) q hq ha
+        rw [hoth a this]; exact hinv q (by simp [hq]) hc a ha)
+      refine ⟨kw', ?_, fun a => ?_⟩
+      · rw [List.filterMap_cons]
+        show parseGenerics e (impl :: l.filterMap (·.generic?)) kw = some kw'
+        simp only [parseGenerics, h2, Option.bind_some]; exact h3
+      rw [List.findSome?_cons, h4 a]
+      by_cases ha : a ∈ impl.own
+      · have hnot := own_head_notin hnd (p := Property.genericElement arg req impl)
+          (by simpa [Property.ownArgs] using ha)
+        have : l.findSome? (genEff o a) = none :=
+          findSome?_none (fun q hq => by
+            cases hq' : genEff o a q with
+            | none => rfl
+            | some y => exact absurd (genEff_own (o := o) (a := a) (p := q) (by rw [hq']; rfl)) (hnot q hq))
+        rw [this, hset a ha, hnone a ha]
+        simp only [genEff, ha, if_true]
+        cases impl.eff o a <;> simp
+      · simp [genEff, ha, hoth a ha]
+    | attr adm arg c req dflt => exact idle rfl (fun a => rfl)
+    | attrElement adm arg c req dflt po => exact idle rfl (fun a => rfl)
+    | listElement adm arg c req po => exact idle rfl (fun a => rfl)
+    | handleText arg c => exact idle rfl (fun a => rfl)
+    | typeAttribute d l' arg cD cL req => exact idle rfl (fun a => rfl)
+    | customElement adm arg req impl => exact idle rfl (fun a => rfl)
+
+/-- the hypotheses of the round-trip theorem; `e` is the element under consideration (`toXml ps name o`) -/
+structure WF (ps : List (Property V)) (e : Xml) (o cd : Obj V) : Prop where
   keys : KeysOK ps
-  declS : ∀ a ∈ declArgs ps, S a
-  fields : ∀ p ∈ ps, FieldOK ps S o cd p
+  fields : ∀ p ∈ ps, FieldOK ps e o cd p
 
-def textEff (o : Obj V) (a : String) : Property V → Option (Val V)
-  | .handleText arg _ => if arg = a then (match o arg with | .one v => some (.one v) | .many _ => none) else none
-  | _ => none
+/-- what ends up in `kwargs[a]` because of property `p` -/
+def propEff (o : Obj V) (a : String) (p : Property V) : Option (Val V) :=
+  (genEff o a p).or ((textEff o a p).or ((childEff o a p).or (attrEff o a p)))
 
-theorem textEff_declArg {o : Obj V} {a : String} {p : Property V} (h : (textEff o a p).isSome) :
-    p.declArg? = some a := by
-  cases p <;> simp only [textEff, Property.declArg?] at h ⊢ <;> try (cases h)
-  split at h
-  · simp [*]
-  · cases h
-
-/-- what ends up in `kwargs[a]` for the declarative owner `p` of `a` -/
-def declEff (o : Obj V) (a : String) (p : Property V) : Option (Val V) :=
-  (textEff o a p).or ((childEff o a p).or (attrEff o a p))
-
-/-- the four passes on what `to_xml` wrote: they succeed, and every argument in `S` holds exactly what
-its declarative owner wrote (nothing if it has no owner or the owner elided it) -/
-theorem stages_roundtrip (ps : List (Property V)) (S : String → Prop) (name : String) (o cd : Obj V)
-    (h : WF ps S o cd) :
+/-- the four passes on what `to_xml` wrote: they succeed, and every argument holds exactly what its owner
+stored (nothing if it has no owner or the owner elided it) -/
+theorem stages_roundtrip (ps : List (Property V)) (name : String) (o cd : Obj V)
+    (h : WF ps (toXml ps name o) o cd) :
     ∃ kw, parseStages ps (toXml ps name o) = some kw ∧
-      (∀ p ∈ ps, ∀ a, p.declArg? = some a → kw a = declEff o a p) ∧
-      (∀ a, S a → a ∉ declArgs ps → kw a = none) := by
-  obtain ⟨hk, hS, hF⟩ := h
-  -- attributes
-  obtain ⟨kw1, h1, e1⟩ := attrs_loop ps hk S o cd hF ps (fun _ hp => hp) hk.args Kw.empty (fun _ _ _ _ => rfl)
-  -- owner lemmas
+      (∀ p ∈ ps, ∀ a ∈ p.ownArgs, kw a = propEff o a p) ∧
+      (∀ a, a ∉ allArgs ps → kw a = none) := by
+  obtain ⟨hk, hF⟩ := h
+  have hmem : ∀ p ∈ ps, p ∈ ps ∧ FieldOK ps (toXml ps name o) o cd p := fun p hp => ⟨hp, hF p hp⟩
   have owner : ∀ (f : String → Property V → Option (Val V)),
-      (∀ a q, (f a q).isSome → q.declArg? = some a) →
-      ∀ p ∈ ps, ∀ a, p.declArg? = some a → ps.findSome? (f a) = f a p := by
+      (∀ a q, (f a q).isSome → a ∈ q.ownArgs) →
+      ∀ p ∈ ps, ∀ a ∈ p.ownArgs, ps.findSome? (f a) = f a p := by
     intro f hf p hp a ha
-    exact findSome?_owner hp (fun q hq hs => nodup_filterMap_unique hk.args q hq p hp a (hf a q hs) ha)
+    exact findSome?_owner hp (fun q hq hs => nodup_flatMap_unique hk.args q hq p hp a (hf a q hs) ha)
   have noowner : ∀ (f : String → Property V → Option (Val V)),
-      (∀ a q, (f a q).isSome → q.declArg? = some a) →
-      ∀ a, a ∉ declArgs ps → ps.findSome? (f a) = none := by
+      (∀ a q, (f a q).isSome → a ∈ q.ownArgs) →
+      ∀ a, a ∉ allArgs ps → ps.findSome? (f a) = none := by
     intro f hf a ha
     apply findSome?_none
     intro q hq
     cases hq' : f a q with
     | none => rfl
-    | some y => exact absurd (mem_declArgs hq (hf a q (by simp [hq']))) ha
-  have hA := owner (attrEff o) (fun a q hs => attrEff_declArg hs)
-  have hC := owner (childEff o) (fun a q hs => childEff_declArg hs)
+    | some y => exact absurd (mem_allArgs hq (hf a q (by simp [hq']))) ha
+  have hA := owner (attrEff o) (fun a q hs => attrEff_own hs)
+  have hC := owner (childEff o) (fun a q hs => childEff_own hs)
+  have hT := owner (textEff o) (fun a q hs => textEff_own hs)
+  have hG := owner (genEff o) (fun a q hs => genEff_own hs)
+  -- attributes
+  obtain ⟨kw1, h1, e1⟩ := attrs_loop ps hk _ o cd ps hmem hk.args Kw.empty (fun _ _ _ _ => rfl)
   -- children
-  obtain ⟨kw2, h2, e2⟩ := children_loop ps hk S hS o cd hF ps (fun _ hp => hp) hk.args kw1 (by
+  obtain ⟨kw2, h2, e2⟩ := children_loop ps hk _ o cd ps hmem hk.args kw1 (by
     intro p hp a ha
-    rw [e1 a, hA p hp a (childArg_declArg ha)]
-    cases p <;> simp only [Property.childArg?] at ha <;> first | cases ha | simp [attrEff, Kw.empty])
-  have hT := owner (textEff o) (fun a q hs => textEff_declArg hs)
+    rw [e1 a, hA p hp a (childOwn_own ha)]
+    cases p <;> simp only [Property.childOwn] at ha <;> first | cases ha | simp [attrEff, Kw.empty])
   -- text
   have htext : ∃ kw3, parseText ps (toXml ps name o) kw2 = some kw3 ∧
       ∀ a, kw3 a = (ps.findSome? (textEff o a)).or (kw2 a) := by
@@ -673,7 +750,7 @@ theorem stages_roundtrip (ps : List (Property V)) (S : String → Prop) (name : 
       refine ⟨kw2.set arg (.one v), by simp [htxt, hrt], fun a => ?_⟩
       by_cases haa : a = arg
       · subst haa
-        rw [hT _ hp0 a rfl]
+        rw [hT _ hp0 a (by simp [Property.ownArgs])]
         simp [textEff, hov, Kw.set_same]
       · have : ps.findSome? (textEff o a) = none := by
           apply findSome?_none
@@ -695,156 +772,203 @@ theorem stages_roundtrip (ps : List (Property V)) (S : String → Prop) (name : 
             · cases hq'
         simp [this, Kw.set_other _ _ haa]
   obtain ⟨kw3, h3, e3⟩ := htext
+  -- the arguments of a generic handler are untouched by the first three passes
+  have before_gen : ∀ p ∈ ps, p.generic?.isSome → ∀ a ∈ p.ownArgs, kw3 a = none := by
+    intro p hp hg a ha
+    rw [e3 a, e2 a, e1 a, hT p hp a ha, hC p hp a ha, hA p hp a ha]
+    cases p <;> simp [Property.generic?] at hg
+    simp [textEff, childEff, attrEff, Kw.empty]
   -- generic handlers
-  obtain ⟨kw4, h4, e4⟩ := generics_loop S (toXml ps name o) (ps.filterMap (·.generic?)) (by
-    intro g hg
-    obtain ⟨q, hq, hqg⟩ := List.mem_filterMap.mp hg
-    cases q <;> simp [Property.generic?] at hqg
-    subst hqg
-    exact (hF _ hq).2.2) kw3
+  obtain ⟨kw4, h4, e4⟩ := generics_loop ps _ o cd ps hmem hk.args kw3 before_gen
   refine ⟨kw4, ?_, ?_, ?_⟩
   · have ha : (toXml ps name o).attrs = ps.flatMap (·.attrsOut o) := rfl
     have hc : (toXml ps name o).children = ps.flatMap (·.childrenOut o) := rfl
     simp only [parseStages, ha, hc, h1, h2, h3, h4, Option.bind_eq_bind, Option.bind_some]
   · intro p hp a ha
-    have hSa := hS a (mem_declArgs hp ha)
-    rw [e4 a hSa, e3 a, e2 a hSa, e1 a, hT p hp a ha, hC p hp a ha, hA p hp a ha]
-    simp [declEff, Kw.empty]
-  · intro a hSa hna
-    rw [e4 a hSa, e3 a, e2 a hSa, e1 a,
-      noowner (textEff o) (fun a q hs => textEff_declArg hs) a hna,
-      noowner (childEff o) (fun a q hs => childEff_declArg hs) a hna,
-      noowner (attrEff o) (fun a q hs => attrEff_declArg hs) a hna]
+    rw [e4 a, e3 a, e2 a, e1 a, hG p hp a ha, hT p hp a ha, hC p hp a ha, hA p hp a ha]
+    simp [propEff, Kw.empty]
+  · intro a hna
+    rw [e4 a, e3 a, e2 a, e1 a,
+      noowner (genEff o) (fun a q hs => genEff_own hs) a hna,
+      noowner (textEff o) (fun a q hs => textEff_own hs) a hna,
+      noowner (childEff o) (fun a q hs => childEff_own hs) a hna,
+      noowner (attrEff o) (fun a q hs => attrEff_own hs) a hna]
     simp [Kw.empty]
 
-/-- the constructor fills in what was elided: the owner's contribution, defaulted, is the object's value;
-a required declarative argument is always present -/
-theorem declEff_value (ps : List (Property V)) (S : String → Prop) (o cd : Obj V) (p : Property V)
-    (hf : FieldOK ps S o cd p) (a : String) (ha : p.declArg? = some a) :
-    (declEff o a p).getD (cd a) = o a ∧ (p.requiredArg? = some a → (declEff o a p).isSome) := by
+omit [DecidableEq V] in
+theorem mem_declArgs {ps : List (Property V)} {p : Property V} {a : String} (hp : p ∈ ps)
+    (ha : p.declArg? = some a) : a ∈ declArgs ps :=
+  List.mem_filterMap.mpr ⟨p, hp, ha⟩
+
+/-- what a hand-written handler stores (its specification `eff`) -/
+def Property.customEff : Property V → Obj V → String → Option (Val V)
+  | .customElement _ _ _ impl => impl.eff
+  | .genericElement _ _ impl => impl.eff
+  | _ => fun _ _ => none
+
+theorem propEff_custom (o : Obj V) (p : Property V) (hc : p.isCustom = true) (a : String) (ha : a ∈ p.ownArgs) :
+    propEff o a p = p.customEff o a := by
+  cases p <;> simp [Property.isCustom] at hc
+  · have : a ∈ _ := ha
+    simp only [Property.ownArgs] at ha
+    simp [propEff, genEff, textEff, childEff, attrEff, ha, Property.customEff]
+  · simp only [Property.ownArgs] at ha
+    simp [propEff, genEff, textEff, childEff, attrEff, ha, Property.customEff]
+
+/-- the constructor fills in what was elided: a declarative owner's contribution, defaulted, is the object's
+value; a required declarative argument is always present -/
+theorem declEff_value (ps : List (Property V)) (e : Xml) (o cd : Obj V) (p : Property V)
+    (hf : FieldOK ps e o cd p) (hc : p.isCustom = false) (a : String) (ha : a ∈ p.ownArgs) :
+    (propEff o a p).getD (cd a) = o a ∧ (p.requiredArg? = some a → (propEff o a p).isSome) := by
   cases p with
   | attr adm arg c req dflt =>
     obtain ⟨v, hov, _, hd⟩ := hf
-    simp only [Property.declArg?, Option.some.injEq] at ha; subst ha
+    simp only [Property.ownArgs, List.mem_singleton] at ha; subst ha
     by_cases hvd : v = dflt
     · cases req with
       | true => simp only [if_true] at hd; exact absurd hvd hd
       | false =>
         simp only [Bool.false_eq_true, if_false] at hd
-        simp [declEff, textEff, childEff, attrEff, hov, hvd, hd, Property.requiredArg?]
-    · simp [declEff, textEff, childEff, attrEff, hov, hvd]
+        simp [propEff, genEff, textEff, childEff, attrEff, hov, hvd, hd, Property.requiredArg?]
+    · simp [propEff, genEff, textEff, childEff, attrEff, hov, hvd]
   | attrElement adm arg c req dflt po =>
     cases po with
-    | true => simp [Property.declArg?] at ha
+    | true => simp [Property.ownArgs] at ha
     | false =>
       rcases hf with h | ⟨hpo, v, hov, _, hd⟩
       · cases h.1
-      simp only [Property.declArg?, Bool.false_eq_true, if_false, Option.some.injEq] at ha; subst ha
+      simp only [Property.ownArgs, Bool.false_eq_true, if_false, List.mem_singleton] at ha; subst ha
       by_cases hvd : v = dflt
       · cases req with
         | true => simp only [if_true] at hd; exact absurd hvd hd
         | false =>
           simp only [Bool.false_eq_true, if_false] at hd
-          simp [declEff, textEff, childEff, attrEff, hov, hvd, hd, Property.requiredArg?]
-      · simp [declEff, textEff, childEff, attrEff, hov, hvd]
+          simp [propEff, genEff, textEff, childEff, attrEff, hov, hvd, hd, Property.requiredArg?]
+      · simp [propEff, genEff, textEff, childEff, attrEff, hov, hvd]
   | listElement adm arg c req po =>
     cases po with
-    | true => simp [Property.declArg?] at ha
+    | true => simp [Property.ownArgs] at ha
     | false =>
       rcases hf with h | ⟨hpo, vs, hov, _, hd⟩
       · cases h.1
-      simp only [Property.declArg?, Bool.false_eq_true, if_false, Option.some.injEq] at ha; subst ha
+      simp only [Property.ownArgs, Bool.false_eq_true, if_false, List.mem_singleton] at ha; subst ha
       cases vs with
       | nil =>
         obtain ⟨hr, hcd⟩ := hd rfl
-        simp [declEff, textEff, childEff, attrEff, hov, hcd, Property.requiredArg?, hr]
-      | cons v vs => simp [declEff, textEff, childEff, attrEff, hov]
+        simp [propEff, genEff, textEff, childEff, attrEff, hov, hcd, Property.requiredArg?, hr]
+      | cons v vs => simp [propEff, genEff, textEff, childEff, attrEff, hov]
   | handleText arg c =>
     obtain ⟨v, hov, _⟩ := hf
-    simp only [Property.declArg?, Option.some.injEq] at ha; subst ha
-    simp [declEff, textEff, hov]
+    simp only [Property.ownArgs, List.mem_singleton] at ha; subst ha
+    simp [propEff, genEff, textEff, hov]
   | typeAttribute d l arg cD cL req =>
     obtain ⟨v, hov, _⟩ := hf
-    simp only [Property.declArg?, Option.some.injEq] at ha; subst ha
-    simp [declEff, textEff, childEff, attrEff, hov]
-  | customElement adm arg req impl => simp [Property.declArg?] at ha
-  | genericElement arg req impl => simp [Property.declArg?] at ha
+    simp only [Property.ownArgs, List.mem_singleton] at ha; subst ha
+    simp [propEff, genEff, textEff, childEff, attrEff, hov]
+  | customElement adm arg req impl => simp [Property.isCustom] at hc
+  | genericElement arg req impl => simp [Property.isCustom] at hc
 
 /-- a required argument of a declarative property is the argument it writes (parse-only properties are
 never required) -/
-theorem requiredArg_declArg (ps : List (Property V)) (S : String → Prop) (o cd : Obj V) (p : Property V)
-    (hf : FieldOK ps S o cd p) (hc : p.isCustom = false) (a : String) (ha : p.requiredArg? = some a) :
-    p.declArg? = some a := by
+theorem requiredArg_own (ps : List (Property V)) (e : Xml) (o cd : Obj V) (p : Property V)
+    (hf : FieldOK ps e o cd p) (hc : p.isCustom = false) (a : String) (ha : p.requiredArg? = some a) :
+    a ∈ p.ownArgs := by
   cases p with
-  | attr adm arg c req dflt => cases req <;> simp_all [Property.requiredArg?, Property.declArg?]
+  | attr adm arg c req dflt => cases req <;> simp_all [Property.requiredArg?, Property.ownArgs]
   | attrElement adm arg c req dflt po =>
     cases po with
-    | false => cases req <;> simp_all [Property.requiredArg?, Property.declArg?]
+    | false => cases req <;> simp_all [Property.requiredArg?, Property.ownArgs]
     | true =>
-      rcases hf with h | ⟨hpo, v, hov, _, hd⟩
+      rcases hf with h | ⟨hpo, _⟩
       · simp [Property.requiredArg?, h.2] at ha
       · cases hpo
   | listElement adm arg c req po =>
     cases po with
-    | false => cases req <;> simp_all [Property.requiredArg?, Property.declArg?]
+    | false => cases req <;> simp_all [Property.requiredArg?, Property.ownArgs]
     | true =>
-      rcases hf with h | ⟨hpo, vs, hov, _, hd⟩
+      rcases hf with h | ⟨hpo, _⟩
       · simp [Property.requiredArg?, h.2] at ha
       · cases hpo
   | handleText arg c => simp [Property.requiredArg?] at ha
-  | typeAttribute d l arg cD cL req => cases req <;> simp_all [Property.requiredArg?, Property.declArg?]
+  | typeAttribute d l arg cD cL req => cases req <;> simp_all [Property.requiredArg?, Property.ownArgs]
   | customElement adm arg req impl => simp [Property.isCustom] at hc
   | genericElement arg req impl => simp [Property.isCustom] at hc
 
-/-- **Round trip of the declarative layer.**  Under `WF` (field codecs round-trip on the values carried,
-keys / arguments pairwise distinct, defaults elided symmetrically, hand-written handlers framed) and if the
-hand-written handlers deliver their own required arguments, parsing what `to_xml` wrote succeeds; the
-resulting object agrees with the original on every declarative argument, and every other argument in `S`
-holds its constructor default. -/
-theorem codec_roundtrip (ps : List (Property V)) (S : String → Prop) (name : String) (o cd : Obj V)
-    (h : WF ps S o cd)
-    (hreq : ∀ kw, parseStages ps (toXml ps name o) = some kw →
-      ∀ p ∈ ps, p.isCustom = true → ∀ a, p.requiredArg? = some a → (kw a).isSome) :
-    ∃ o', parse ps cd (toXml ps name o) = some o' ∧ (∀ a ∈ declArgs ps, o' a = o a) ∧
-      (∀ a, S a → a ∉ declArgs ps → o' a = cd a) := by
-  obtain ⟨kw, hst, hdecl, hother⟩ := stages_roundtrip ps S name o cd h
+/-- **Round trip of `ElementParser.parse ∘ to_xml`.**  Under `WF` (field codecs round-trip on the values
+written, handler keys / element names / arguments pairwise distinct, defaults elided symmetrically, the
+hand-written handlers behave on their own output as their specification `eff` says and leave the other
+arguments alone) parsing what `to_xml` wrote succeeds; the object obtained agrees with the original on every
+declarative argument, holds `eff` (defaulted by the constructor) under every argument of a hand-written
+handler, and the constructor default everywhere else. -/
+theorem codec_roundtrip (ps : List (Property V)) (name : String) (o cd : Obj V)
+    (h : WF ps (toXml ps name o) o cd) :
+    ∃ o', parse ps cd (toXml ps name o) = some o' ∧
+      (∀ p ∈ ps, p.isCustom = false → ∀ a ∈ p.ownArgs, o' a = o a) ∧
+      (∀ p ∈ ps, p.isCustom = true → ∀ a ∈ p.ownArgs, o' a = (p.customEff o a).getD (cd a)) ∧
+      (∀ a, a ∉ allArgs ps → o' a = cd a) := by
+  obtain ⟨kw, hst, hown, hother⟩ := stages_roundtrip ps name o cd h
   have hall : (ps.filterMap (·.requiredArg?)).all (fun a => (kw a).isSome) = true := by
     rw [List.all_eq_true]
     intro a ha
     obtain ⟨p, hp, hpa⟩ := List.mem_filterMap.mp ha
     cases hc : p.isCustom with
-    | true => exact hreq kw hst p hp hc a hpa
     | false =>
-      have hd := requiredArg_declArg ps S o cd p (h.fields p hp) hc a hpa
-      rw [hdecl p hp a hd]
-      exact (declEff_value ps S o cd p (h.fields p hp) a hd).2 hpa
-  refine ⟨fun a => (kw a).getD (cd a), ?_, ?_, ?_⟩
+      have hd := requiredArg_own ps _ o cd p (h.fields p hp) hc a hpa
+      rw [hown p hp a hd]
+      exact (declEff_value ps _ o cd p (h.fields p hp) hc a hd).2 hpa
+    | true =>
+      have hf := h.fields p hp
+      cases p <;> simp [Property.isCustom] at hc
+      · rename_i adm arg req impl
+        cases req <;> simp [Property.requiredArg?] at hpa
+        obtain ⟨hmem, hsome⟩ := hf.2.2.2 rfl a hpa
+        rw [hown _ hp a (by simpa [Property.ownArgs] using hmem)]
+        simpa [propEff, genEff, textEff, childEff, attrEff, hmem] using hsome
+      · rename_i arg req impl
+        cases req <;> simp [Property.requiredArg?] at hpa
+        obtain ⟨hmem, hsome⟩ := hf.2.2.2 rfl a hpa
+        rw [hown _ hp a (by simpa [Property.ownArgs] using hmem)]
+        simpa [propEff, genEff, textEff, childEff, attrEff, hmem] using hsome
+  refine ⟨fun a => (kw a).getD (cd a), ?_, ?_, ?_, ?_⟩
   · unfold parse parseKw
     rw [hst, Option.bind_some, if_pos hall]
     rfl
-  · intro a ha
-    obtain ⟨p, hp, hpa⟩ := List.mem_filterMap.mp ha
-    simp only [hdecl p hp a hpa]
-    exact (declEff_value ps S o cd p (h.fields p hp) a hpa).1
-  · intro a hSa hna
-    simp [hother a hSa hna]
+  · intro p hp hc a ha
+    simp only [hown p hp a ha]
+    exact (declEff_value ps _ o cd p (h.fields p hp) hc a ha).1
+  · intro p hp hc a ha
+    simp only [hown p hp a ha, propEff_custom o p hc a ha]
+  · intro a hna
+    simp [hother a hna]
 
-/-- For a parser made of declarative properties only, the object itself comes back, and generating XML
-from the parsed object reproduces the same tree. -/
-theorem codec_roundtrip_pure (ps : List (Property V)) (name : String) (o cd : Obj V)
-    (h : WF ps (fun _ => True) o cd) (hpure : ∀ p ∈ ps, p.isCustom = false)
-    (hrest : ∀ a, a ∉ declArgs ps → o a = cd a) :
+/-- **Class-level round trip**: if, in addition, every hand-written handler's stored value (defaulted by the
+constructor) is the object's value, and the object holds constructor defaults outside the handled arguments,
+then the object itself comes back and generating XML from the parsed object reproduces the same tree. -/
+theorem codec_roundtrip_full (ps : List (Property V)) (name : String) (o cd : Obj V)
+    (h : WF ps (toXml ps name o) o cd)
+    (hcustom : ∀ p ∈ ps, p.isCustom = true → ∀ a ∈ p.ownArgs, (p.customEff o a).getD (cd a) = o a)
+    (hrest : ∀ a, a ∉ allArgs ps → o a = cd a) :
     parse ps cd (toXml ps name o) = some o ∧
     (parse ps cd (toXml ps name o)).map (toXml ps name) = some (toXml ps name o) := by
-  obtain ⟨o', hp, h1, h2⟩ := codec_roundtrip ps (fun _ => True) name o cd h
-    (fun kw _ p hp hc => by rw [hpure p hp] at hc; cases hc)
+  obtain ⟨o', hp, h1, h2, h3⟩ := codec_roundtrip ps name o cd h
   have : o' = o := by
     funext a
-    by_cases ha : a ∈ declArgs ps
-    · exact h1 a ha
-    · rw [h2 a trivial ha, hrest a ha]
+    by_cases ha : a ∈ allArgs ps
+    · obtain ⟨p, hpm, hpa⟩ := List.mem_flatMap.mp ha
+      cases hc : p.isCustom with
+      | false => exact h1 p hpm hc a hpa
+      | true => rw [h2 p hpm hc a hpa]; exact hcustom p hpm hc a hpa
+    · rw [h3 a ha, hrest a ha]
   subst this
   exact ⟨hp, by rw [hp]; rfl⟩
+
+/-- parsers made of declarative properties only -/
+theorem codec_roundtrip_pure (ps : List (Property V)) (name : String) (o cd : Obj V)
+    (h : WF ps (toXml ps name o) o cd) (hpure : ∀ p ∈ ps, p.isCustom = false)
+    (hrest : ∀ a, a ∉ allArgs ps → o a = cd a) :
+    parse ps cd (toXml ps name o) = some o ∧
+    (parse ps cd (toXml ps name o)).map (toXml ps name) = some (toXml ps name o) :=
+  codec_roundtrip_full ps name o cd h (fun p hp hc => by rw [hpure p hp] at hc; cases hc) hrest
 
 /-- what the declarative properties write depends only on the declarative arguments: together with
 `codec_roundtrip` this is `to_xml (parse (to_xml obj)) = to_xml obj` for the declarative part of a mixed
